@@ -419,12 +419,8 @@ func runC19Other(c *Ctx, idx int, cr *CaseResult) *CaseResult {
 		}
 		desc = fmt.Sprintf("time %s vs %s", f.Tm, g.Tm2)
 	}
-	ops := []string{"<", "==", ">", "<=", ">=", "!="}
-	want := map[string]bool{"<": cv < 0, "==": cv == 0, ">": cv > 0, "<=": cv <= 0, ">=": cv >= 0, "!=": cv != 0}
 	var text strings.Builder
-	for i, op := range ops {
-		fmt.Fprintf(&text, "rule Op%d \"%s\" { when %s %s %s then F.B = 1; }\n", i, op, left, op, right)
-	}
+	text.WriteString(c19Rules(left, right))
 	lib, err := BuildLib(text.String())
 	if err != nil {
 		cr.inconclusive("rule text rejected by the builder (judged by C17)")
@@ -441,17 +437,9 @@ func runC19Other(c *Ctx, idx int, cr *CaseResult) *CaseResult {
 		cr.violate(fmt.Sprintf("comparison through GRL fails (%s): %v %v", desc, res.Err, res.Panic), map[string]interface{}{"grl": text.String()})
 		return cr
 	}
-	got := map[string]bool{}
-	for _, n := range res.Matched {
-		var i int
-		fmt.Sscanf(n, "Op%d", &i)
-		got[ops[i]] = true
-	}
-	for _, op := range ops {
-		if got[op] != want[op] {
-			cr.violate(fmt.Sprintf("GRL: %s %s %s (%s) is %v, the values say %v", left, op, right, desc, got[op], want[op]), map[string]interface{}{"grl": text.String()})
-			return cr
-		}
+	if bad := c19Judge(res.Matched, cv, left, right); bad != "" {
+		cr.violate("GRL: "+bad+" ("+desc+")", map[string]interface{}{"grl": text.String()})
+		return cr
 	}
 	cr.NonTrivial = append(cr.NonTrivial, desc)
 	cr.set("grl_kind_pairs", left+","+right)
@@ -523,11 +511,7 @@ func runC19Case(c *Ctx, idx int) *CaseResult {
 	}
 	cv := ra.Cmp(rb)
 	var text strings.Builder
-	ops := []string{"<", "==", ">", "<=", ">=", "!="}
-	want := map[string]bool{"<": cv < 0, "==": cv == 0, ">": cv > 0, "<=": cv <= 0, ">=": cv >= 0, "!=": cv != 0}
-	for i, op := range ops {
-		fmt.Fprintf(&text, "rule Op%d \"%s\" { when %s %s %s then F.B = 1; }\n", i, op, left, op, right)
-	}
+	text.WriteString(c19Rules(left, right))
 	lib, err := BuildLib(text.String())
 	if err != nil {
 		cr.inconclusive("rule text rejected by the builder (judged by C17)")
@@ -544,17 +528,9 @@ func runC19Case(c *Ctx, idx int) *CaseResult {
 		cr.violate(fmt.Sprintf("comparison of %s(%s) with %s(%s) through GRL fails: %v %v", ka, ra.RatString(), kb, rb.RatString(), res.Err, res.Panic), map[string]interface{}{"grl": text.String()})
 		return cr
 	}
-	got := map[string]bool{}
-	for _, n := range res.Matched {
-		var i int
-		fmt.Sscanf(n, "Op%d", &i)
-		got[ops[i]] = true
-	}
-	for _, op := range ops {
-		if got[op] != want[op] {
-			cr.violate(fmt.Sprintf("GRL: %s %s %s with %s(%s), %s(%s) is %v, the values say %v", left, op, right, ka, ra.RatString(), kb, rb.RatString(), got[op], want[op]), map[string]interface{}{"grl": text.String()})
-			return cr
-		}
+	if bad := c19Judge(res.Matched, cv, left, right); bad != "" {
+		cr.violate(fmt.Sprintf("GRL: %s with %s = %s(%s), %s = %s(%s)", bad, left, ka, ra.RatString(), right, kb, rb.RatString()), map[string]interface{}{"grl": text.String()})
+		return cr
 	}
 	if ka != kb {
 		cr.NonTrivial = append(cr.NonTrivial, fmt.Sprintf("%s|%s|%s|%s|%s|%s", ka, ra.RatString(), kb, rb.RatString(), left, right))
@@ -602,3 +578,56 @@ func init() {
 }
 
 var _ = math.MaxInt64
+
+var c19Ops = []string{"<", "==", ">", "<=", ">=", "!="}
+var c19Mirror = map[string]string{"<": ">", ">": "<", "<=": ">=", ">=": "<=", "==": "==", "!=": "!="}
+
+// c19Rules: for every operator the rule "left op right", its mirrored spelling "right mop left"
+// and the swapped condition "right op left" - all in ONE knowledge base, as a rule author may
+// write them.
+func c19Rules(left, right string) string {
+	var text strings.Builder
+	for i, op := range c19Ops {
+		fmt.Fprintf(&text, "rule Op%d \"%s\" { when %s %s %s then F.B = 1; }\n", i, op, left, op, right)
+	}
+	for i, op := range c19Ops {
+		fmt.Fprintf(&text, "rule MOp%d \"mirror of %s\" { when %s %s %s then F.B = 1; }\n", i, op, right, c19Mirror[op], left)
+	}
+	for i, op := range c19Ops {
+		fmt.Fprintf(&text, "rule SOp%d \"swapped %s\" { when %s %s %s then F.B = 1; }\n", i, op, right, op, left)
+	}
+	return text.String()
+}
+
+// c19Judge compares the matched rules with the exact order cv of (left, right).
+func c19Judge(matched []string, cv int, left, right string) string {
+	got, gotM, gotS := map[string]bool{}, map[string]bool{}, map[string]bool{}
+	for _, n := range matched {
+		var i int
+		switch {
+		case strings.HasPrefix(n, "MOp"):
+			fmt.Sscanf(n, "MOp%d", &i)
+			gotM[c19Ops[i]] = true
+		case strings.HasPrefix(n, "SOp"):
+			fmt.Sscanf(n, "SOp%d", &i)
+			gotS[c19Ops[i]] = true
+		default:
+			fmt.Sscanf(n, "Op%d", &i)
+			got[c19Ops[i]] = true
+		}
+	}
+	want := map[string]bool{"<": cv < 0, "==": cv == 0, ">": cv > 0, "<=": cv <= 0, ">=": cv >= 0, "!=": cv != 0}
+	wantS := map[string]bool{"<": cv > 0, "==": cv == 0, ">": cv < 0, "<=": cv >= 0, ">=": cv <= 0, "!=": cv != 0}
+	for _, op := range c19Ops {
+		if got[op] != want[op] {
+			return fmt.Sprintf("%s %s %s is %v, the values say %v", left, op, right, got[op], want[op])
+		}
+		if gotM[op] != want[op] {
+			return fmt.Sprintf("the mirrored %s %s %s is %v, the values say %v", right, c19Mirror[op], left, gotM[op], want[op])
+		}
+		if gotS[op] != wantS[op] {
+			return fmt.Sprintf("%s %s %s (next to %s %s %s in the same knowledge base) is %v, the values say %v", right, op, left, left, op, right, gotS[op], wantS[op])
+		}
+	}
+	return ""
+}
